@@ -131,20 +131,20 @@ def stripName (src : CStr) (size : Nat := NV.Gen.C15.pathMax - 2) : Option CStr 
 def loadRealName (name : CStr) : Option CStr :=
   (stripName name).map (· ++ ['.', 'c'])
 
-/-- paths `load_object` passes to the file system for a source that is found on disk:
-    `stat (real_name)` happens BEFORE the `legal_path` test; the `open` only after it. -/
+/-- paths `load_object` passes to the file system (`pre_text == NULL`): the name must pass `legal_path`
+    BEFORE `stat (real_name)` (repaired code), the `open` follows when the stat succeeded. -/
 structure LoadAccess where
-  probe : CStr              -- stat (real_name)
-  opened : Option CStr      -- FILE_OPEN (real_name) (only when the stat succeeded and the name is legal)
+  probe : Option CStr       -- stat (real_name)
+  opened : Option CStr      -- FILE_OPEN (real_name)
   deriving Repr, DecidableEq
 
 def loadAccess (name : CStr) (exists_ : CStr → Bool) : Option LoadAccess :=
   match loadRealName name with
-  | none => none
+  | none => none                                   -- error "consecutive /'s"
   | some rn =>
-    if exists_ rn then
-      some { probe := rn, opened := if legalPath rn then some rn else none }
-    else some { probe := rn, opened := none }
+    if legalPath rn then                            -- legal = legal_path (real_name)
+      some { probe := some rn, opened := if exists_ rn then some rn else none }
+    else some { probe := none, opened := none }     -- treated as not found, never looked up
 
 /-! ### #include path handling -/
 
@@ -154,35 +154,43 @@ def cutLast (d : CStr) : CStr :=
 
 def startsWith (s pre : CStr) : Bool := s.take pre.length == pre
 
-/-- the `while (*from)` loop of `inc_lexically_normal`.
-    Quirk kept: in the append branch `slash = strchr (from, '/')` is computed BEFORE the
-    `while (*from == '/') from++` that skips leading slashes, so when `from` starts with '/'
-    (after "../" or "./", e.g. "..//x") the length `slash - from` is negative, i.e. huge as a
-    `size_t`, and `strncat` appends ALL of the remaining text unnormalised; the same text is then
-    processed again. -/
-def incLoop : Nat → CStr → CStr → CStr
+/-- the `while (*from)` loop of `inc_lexically_normal` (repaired: the slashes that follow a "../" or
+    "./" are skipped with it, so the append branch never starts at a '/').
+    `slashQuirk = true` is the code before that repair: `slash = strchr (from, '/')` was computed
+    BEFORE the `while (*from == '/') from++`, so for a `from` starting with '/' the length
+    `slash - from` was negative (huge as a `size_t`) and `strncat` appended ALL of the remaining
+    text unnormalised; the same text was then processed again. -/
+def incLoop (slashQuirk : Bool) : Nat → CStr → CStr → CStr
   | 0, d, _ => d
   | n + 1, d, f =>
+    let skip (g : CStr) : CStr := if slashQuirk then g else g.dropWhile (· = '/')
     if f = [] then d
     else if startsWith f ['.', '.', '/'] then
       if d = [] then d                                   -- break: above the mudlib
-      else incLoop n (cutLast d) (f.drop 3)
-    else if startsWith f ['.', '/'] then incLoop n d (f.drop 2)
+      else incLoop slashQuirk n (cutLast d) (skip (f.drop 3))
+    else if startsWith f ['.', '/'] then incLoop slashQuirk n d (skip (f.drop 2))
     else
       let d1 := if d = [] then d else d ++ ['/']
       if '/' ∈ f then
         let f1 := f.dropWhile (· = '/')
         let app := if f.head? = some '/' then f1 else f.takeWhile (· ≠ '/')
         let rest := ((f.dropWhile (· ≠ '/')).drop 1).dropWhile (· = '/')
-        incLoop n (d1 ++ app) rest
+        incLoop slashQuirk n (d1 ++ app) rest
       else d1 ++ f
 
 /-- `static void inc_lexically_normal (const char *abs_base, const char *name, char *dest)` -/
-def incNormal (base name : CStr) : CStr :=
+def incNormal (base name : CStr) (slashQuirk : Bool := false) : CStr :=
   let dest := cutLast base                                -- directory of the including file ("" = root)
   let from_ := name.dropWhile (· = '/')
   let dest := if name.head? = some '/' then [] else dest  -- absolute include: from the mudlib root
-  incLoop (from_.length + 1) dest from_
+  incLoop slashQuirk (from_.length + 1) dest from_
+
+/-- one entry of the include search path as `set_inc_list` stores it: one leading '/' removed, "" read as
+    "." (the mudlib directory), dropped unless `legal_path` -/
+def incDirOf (entry : CStr) : Option CStr :=
+  let p := stripOneSlash entry
+  let p := if p = [] then ['.'] else p
+  if legalPath p then some p else none
 
 /-- `for (p = strchr (name, '.'); p; p = strchr (p + 1, '.')) if (p[1] == '.') return -1;` -/
 def hasDotDot : CStr → Bool
@@ -191,10 +199,14 @@ def hasDotDot : CStr → Bool
 
 /-- the paths `inc_open (buf, name)` hands to `open()`, in order, until one succeeds.
     `guarded = true` is the repaired code (the normalised path must pass `legal_path`);
-    `guarded = false` the code before the repair. -/
+    `guarded = false` the code before the repair.  Combinations that do not fit the 1024-byte path
+    buffer (`INC_BUF_SIZE`) are refused. -/
 def incTries (guarded : Bool) (incDirs : List CStr) (base name : CStr) : List CStr :=
-  let first := incNormal base name
+  if base.length + name.length + 2 > NV.Gen.C15.incBufSize then [] else
+  let first := incNormal base name (slashQuirk := !guarded)
   (if !guarded || legalPath first then [first] else []) ++
-  (if hasDotDot name then [] else incDirs.map (fun d => d ++ ['/'] ++ name))
+  (if hasDotDot name then []
+   else (incDirs.filter (fun d => !(d.length + name.length + 2 > NV.Gen.C15.incBufSize))).map
+          (fun d => d ++ ['/'] ++ name))
 
 end NV.C15
